@@ -519,7 +519,12 @@ pub fn c03_ops(text: &str) -> u64 {
     let mut sink: Vec<u8> = Vec::new();
     if let Ok((_, d)) = xml_dom::XmlDocument::from_raw(text) { let s = d.to_string(); sink.extend_from_slice(s.as_bytes()); sink.clear(); let _ = d.pretty(&mut sink); }
     sink.clear();
-    if let Ok((_, d)) = xml_dom::XmlDocument::from_raw_with_context(text, xml_dom::Context::from_text_expanded(true)) { let _ = d.pretty(&mut sink); }
+    if let Ok((_, d)) = xml_dom::XmlDocument::from_raw_with_context(text, xml_dom::Context::from_text_expanded(true)) {
+        let _ = d.pretty(&mut sink);
+        // the information set is built lazily: its character items and normalised attribute values only exist once they are read.
+        // Reading them is part of "information-set construction" (and what any caller of an accepted document does next)
+        let _ = crate::obs::dump_tree(&d, DumpOpt { merged: true, ns: true, prolog: true, specified: true, reflevel: false });
+    }
     sink.len() as u64
 }
 
